@@ -234,6 +234,7 @@ impl Callbacks for Export {
         let nonce = std::env::var("MTSA_NONCE").unwrap_or_default();
         let items = items::export_items(&cx);
         let mir = mirx::export_mir(&cx);
+        let promoted = mirx::export_promoted(&cx);
         let thir = thirx::export_thir(&cx);
         let astattrs = std::fs::read_to_string(format!("{}.astattrs", out)).unwrap_or_default();
         let _ = std::fs::remove_file(format!("{}.astattrs", out));
@@ -257,6 +258,8 @@ impl Callbacks for Export {
         items.write(&mut s);
         s.push_str(",\"mir\":");
         mir.write(&mut s);
+        s.push_str(",\"promoted\":");
+        promoted.write(&mut s);
         s.push_str(",\"thir\":");
         thir.write(&mut s);
         s.push_str(",\"types\":");
